@@ -978,8 +978,10 @@ class bpch1(bpch_base):
         self._groups = OrderedDefaultDict(set)
         while first_header is None or \
                 offset < file_size:
+            # headers are only read: a map opened for update would make
+            # numpy extend a truncated file to the size of the header
             header = memmap(bpch_path, offset=offset, shape=(
-                1,), dtype=_datablock_header_type, mode=mode)[0]
+                1,), dtype=_datablock_header_type, mode='r')[0]
 
             group = header[7].decode().strip()
             tracer_number = header[8]
